@@ -50,6 +50,19 @@ class _Yielder(ast.NodeTransformer):
             rel = ast.Expr(value=ast.Call(func=ast.Attribute(value=lk, attr="release", ctx=ast.Load()), args=[], keywords=[]))
             self.hits += 1
             return [acq, ast.Try(body=node.body, handlers=[], orelse=[], finalbody=[rel])]
+        if len(node.items) == 1 and node.items[0].optional_vars is None and isinstance(node.items[0].context_expr, (ast.Attribute, ast.Name)):
+            # any other `with <expr>:` - decided at run time: a stand-in primitive (Lock / RLock / Condition, whatever the attribute is
+            # called) is acquired as a blocking operation of the scheduler, anything else keeps its with-statement
+            self.nwith = getattr(self, "nwith", 0) + 1
+            var = f"__cm{self.nwith}"
+            bind = ast.Assign(targets=[ast.Name(id=var, ctx=ast.Store())], value=node.items[0].context_expr)
+            test = ast.Call(func=ast.Name(id="getattr", ctx=ast.Load()),
+                            args=[ast.Name(id=var, ctx=ast.Load()), ast.Constant(value="_vf_standin"), ast.Constant(value=False)], keywords=[])
+            acq = ast.Expr(value=ast.YieldFrom(value=ast.Call(func=ast.Attribute(value=ast.Name(id=var, ctx=ast.Load()), attr="acquire", ctx=ast.Load()), args=[], keywords=[])))
+            rel = ast.Expr(value=ast.Call(func=ast.Attribute(value=ast.Name(id=var, ctx=ast.Load()), attr="release", ctx=ast.Load()), args=[], keywords=[]))
+            import copy as _copy
+            plain = ast.With(items=[ast.withitem(context_expr=ast.Name(id=var, ctx=ast.Load()), optional_vars=None)], body=_copy.deepcopy(node.body))
+            return [bind, ast.If(test=test, body=[acq, ast.Try(body=node.body, handlers=[], orelse=[], finalbody=[rel])], orelse=[plain])]
         return node
 
     def visit_Call(self, node):
@@ -152,6 +165,7 @@ def loop_body_function(fn, name=None):
 
 # ------------------------------------------------------------------ scheduler
 _PENDING = []
+_CUR = [None]          # name of the thread the scheduler is stepping (owner identity for re-entrant stand-in locks)
 
 
 def _op(gen):
@@ -188,7 +202,10 @@ class Sched:
         del _PENDING[:]
 
     def spawn(self, name, gen, enabled=None, daemon=False):
-        self.threads.append([name, gen, enabled, daemon])
+        t = [name, gen, enabled, daemon]
+        self.threads.append(t)
+        if getattr(self, "_live", None) is not None:       # started while the scheduler runs (a Thread(...).start() in the code)
+            self._live.append(t)
 
     def pick(self, runnable):
         n = len(runnable)
@@ -247,6 +264,7 @@ class Sched:
             t[2] = None
             self.trace.append(t[0] + "'")
             try:
+                _CUR[0] = t[0]
                 req = next(t[1])
                 if req is not None:
                     t[2] = req
@@ -258,7 +276,7 @@ class Sched:
 
     def run(self):
         results = getattr(self, "results", {})
-        live = [t for t in self.threads if t[1] is not None]
+        live = self._live = [t for t in self.threads if t[1] is not None]
         steps = 0
         while any(not t[3] for t in live):
             steps += 1
@@ -311,6 +329,7 @@ class Sched:
             self.trace.append(t[0])
             t[2] = None
             try:
+                _CUR[0] = t[0]
                 req = next(t[1])
                 if req is OTHER:
                     # voluntary yield of a busy-wait iteration: not runnable again before another thread has taken a step
@@ -360,6 +379,8 @@ class Timed:
 
 # ------------------------------------------------------------------ stand-ins
 class HLock:
+    _vf_standin = True
+
     def __init__(self):
         self.owner = None
         self.count = 0
@@ -369,6 +390,18 @@ class HLock:
 
     def acquire(self, blocking=True, timeout=-1):
         def g():
+            if not blocking:
+                yield                              # try-lock: a preemption point, then succeed or give up at once
+                if self.owner is None:
+                    self.owner = True
+                    return True
+                return False
+            if timeout is not None and timeout >= 0:
+                yield Timed(lambda: self.owner is None)      # resumes when free, or by timeout at quiescence
+                if self.owner is None:
+                    self.owner = True
+                    return True
+                return False
             yield (lambda: self.owner is None)
             self.owner = True
             return True
@@ -383,7 +416,111 @@ class HLock:
         raise HarnessError("with-statement on a stand-in lock is not supported")
 
 
+class HRLock:
+    """re-entrant lock: owned by the scheduler thread that acquired it"""
+    _vf_standin = True
+
+    def __init__(self):
+        self.owner = None
+        self.count = 0
+
+    def locked(self):
+        return self.owner is not None
+
+    def acquire(self, blocking=True, timeout=-1):
+        def g():
+            me = _CUR[0]
+            if self.owner is not None and self.owner == me:
+                self.count += 1
+                return True
+            if not blocking:
+                yield
+                if self.owner is None:
+                    self.owner, self.count = _CUR[0], 1
+                    return True
+                return False
+            yield (lambda: self.owner is None)
+            self.owner, self.count = _CUR[0], 1
+            return True
+        return _op(g())
+
+    def release(self):
+        if self.owner is None:
+            raise RuntimeError("cannot release un-acquired lock")
+        self.count -= 1
+        if self.count == 0:
+            self.owner = None
+
+    def __enter__(self):
+        raise HarnessError("with-statement on a stand-in lock reached untransformed code")
+
+
+def _done():
+    return None
+    yield
+
+
+class HCondition:
+    """threading.Condition: wait() releases the lock, parks the caller in FIFO order, re-acquires after a notify (or a timeout
+    at quiescence); notify(n) wakes the n longest-waiting callers.  Spurious wake-ups are not modelled."""
+    _vf_standin = True
+
+    def __init__(self, lock=None):
+        self.lock = lock if lock is not None else HRLock()
+        self.waiters = []
+
+    def acquire(self, *a, **k):
+        return self.lock.acquire(*a, **k)
+
+    def release(self):
+        self.lock.release()
+
+    def __enter__(self):
+        raise HarnessError("with-statement on a stand-in condition reached untransformed code")
+
+    def wait(self, timeout=None):
+        def g():
+            if self.lock.owner is None:
+                raise RuntimeError("cannot wait on un-acquired lock")
+            ticket = [False]
+            self.waiters.append(ticket)
+            saved = (self.lock.owner, self.lock.count)
+            self.lock.owner, self.lock.count = None, 0
+            if timeout is None:
+                yield (lambda: ticket[0])
+            else:
+                yield Timed(lambda: ticket[0])
+                if not ticket[0] and ticket in self.waiters:
+                    self.waiters.remove(ticket)
+            yield (lambda: self.lock.owner is None)
+            self.lock.owner, self.lock.count = saved
+            return ticket[0]
+        return _op(g())
+
+    def wait_for(self, predicate, timeout=None):
+        def g():
+            r = predicate()
+            while not r:
+                ok = yield from self.wait(timeout)
+                r = predicate()
+                if not ok and timeout is not None:
+                    break
+            return r
+        return _op(g())
+
+    def notify(self, n=1):
+        for t in self.waiters[:n]:
+            t[0] = True
+        del self.waiters[:n]
+        return _done()            # harmless if a transformed caller drives it with `yield from`
+
+    def notify_all(self):
+        return self.notify(len(self.waiters))
+
+
 class HEvent:
+    _vf_standin = True
+
     def __init__(self):
         self.flag = False
 
@@ -409,9 +546,26 @@ class HEvent:
         return _op(g())
 
 
+class _Dq(list):
+    """the deque behind queue.Queue (Queue.queue), as far as code reaches into it"""
+
+    def appendleft(self, x):
+        self.insert(0, x)
+
+    def popleft(self):
+        return self.pop(0)
+
+
 class HQueue:
+    _vf_standin = True
+
     def __init__(self):
-        self.items = []
+        self.items = _Dq()
+        self.mutex = HLock()          # queue.Queue.mutex: code that reaches into Queue.queue takes it
+
+    @property
+    def queue(self):
+        return self.items
 
     def put(self, x):
         self.items.append(x)
@@ -441,3 +595,55 @@ class HBarrier:
 
     def reset(self):
         pass
+
+
+# ------------------------------------------------------------------ generic substitution of real primitives
+import queue as _queue
+import threading as _threading
+
+_LOCK_T, _RLOCK_T = type(_threading.Lock()), type(_threading.RLock())
+
+
+def standinize(obj, cache=None, class_level=True):
+    """replace every attribute of `obj` that holds a real threading/queue primitive (Lock, RLock, Event, Condition, Barrier,
+    Queue) by the corresponding stand-in - whatever the attribute is called, so a tree that renames a primitive or introduces a
+    new one is still scheduled rather than blocking the harness process.  Class-level primitives (shared by all instances) map
+    to ONE stand-in per `cache`."""
+    cache = {} if cache is None else cache
+
+    def conv(v):
+        if id(v) in cache:
+            return cache[id(v)][1]
+        if isinstance(v, _threading.Event):
+            n = HEvent()
+            n.flag = v.is_set()
+        elif isinstance(v, _threading.Condition):
+            n = HCondition()
+        elif isinstance(v, _RLOCK_T):
+            n = HRLock()
+        elif isinstance(v, _LOCK_T):
+            n = HLock()
+        elif isinstance(v, _threading.Barrier):
+            n = HBarrier()
+        elif isinstance(v, _queue.Queue):
+            if not v.empty():
+                raise HarnessError("standinize: non-empty real queue")
+            n = HQueue()
+        else:
+            return None
+        cache[id(v)] = (v, n)
+        return n
+    names = {}
+    if class_level:
+        for klass in reversed(type(obj).__mro__):
+            for k, v in vars(klass).items():
+                if not (k.startswith("__") and k.endswith("__")):
+                    names[k] = v
+    names.update(vars(obj))
+    changed = []
+    for k, v in names.items():
+        n = conv(v)
+        if n is not None:
+            setattr(obj, k, n)
+            changed.append(k)
+    return changed
